@@ -4,6 +4,7 @@
 mod engine_life;
 mod engine_model;
 mod engine_hist;
+mod engine_jbytes;
 mod engine_opts;
 mod engine_ssi;
 mod lin;
@@ -102,6 +103,9 @@ fn main() {
         "model" => engine_model::main(&args),
         "replay" => engine_model::replay_main(&args),
         "shrink" => engine_model::shrink_main(&args),
+        "jbytes" => engine_jbytes::main(&args),
+        "jbytes-replay" => engine_jbytes::replay_main(&args),
+        "jbytes-worker" => engine_jbytes::worker_main(&args),
         "ssi" => engine_ssi::main(&args),
         "ssi-replay" => engine_ssi::replay_main(&args),
         "hist" => engine_hist::main(&args),
